@@ -42,11 +42,12 @@ func bytesidx(s string) []int { r := []int{}; for i := 0; i < len(s); i++ { r = 
 `
 
 type c13Case struct {
-	Op   string `json:"op"`
-	S    []byte `json:"s"` // as bytes: JSON cannot carry invalid UTF-8
-	T    []byte `json:"t,omitempty"`
-	I, J int    `json:"i,omitempty"`
-	Lit  string `json:"literal,omitempty"`
+	Op  string `json:"op"`
+	S   []byte `json:"s"` // as bytes: JSON cannot carry invalid UTF-8
+	T   []byte `json:"t,omitempty"`
+	I   int    `json:"i,omitempty"`
+	J   int    `json:"j,omitempty"`
+	Lit string `json:"literal,omitempty"`
 }
 
 var c13Corpus = []string{"", "a", "ab", "hello", "héllo", "日本語", "a€b", "𝄞x", "é", "\xff", "\xc3", "a\xffb", "\xe2\x82", "\xed\xa0\x80", "\x80\x80", "tab\t\n", "\x00", "a\x00b", " sp ", "\xf0\x9f\x98", "ñandú", " ", "Ω≈ç√", strings.Repeat("é", 5)}
